@@ -6,6 +6,7 @@ import SevenZ.Lemmas.SpecProps
 import SevenZ.Lemmas.SpecFiles
 import SevenZ.Lemmas.SpecPack
 import SevenZ.Lemmas.SpecHeader
+import SevenZ.Lemmas.Session
 namespace SevenZ.C07
 open SevenZ SevenZ.Impl
 
@@ -150,6 +151,84 @@ theorem strict_reader_accepts_header (h : Header) (s : Streams) (p : PackInfo) (
     (hw : writeHeaderRaw true h pos = some bytes) :
     Spec.readTop bytes = .ok (.raw (expectedHeader p fs ss sizes fi)) :=
   header_strict_read h s p fs ss sizes fi hs hfi wf wff pos bytes hw
+
+
+/-- "Declared unpacked sizes and CRCs equal those of the content; packed sizes describe the
+    bytes on disk": for ANY chain of codec stages (arbitrary state and compress/flush functions),
+    ANY list of members and ANY cutting of each member into read blocks, a fresh
+    `SevenZipCompressor` that has compressed them and been flushed reports for every member the
+    length and CRC-32 of its bytes; the first stage's input counter — which `unpacksizes` puts
+    LAST in the folder's size list, see `unpacksizes_last` — is the total size of the members;
+    `packsize` is the number of bytes written and `digest` their CRC-32. -/
+theorem compressor_accounting {σ} (chain : List (StageSt σ)) (hne : chain ≠ []) (hfed : headFed chain = 0)
+    (members : List (List Bytes)) :
+    let c0 : Cmp σ := { chain := chain }
+    let r := compressAll c0 members
+    let f := flushCmp r.1
+    r.2 = members.map (fun m => (m.flatten.length, crc32 m.flatten)) ∧
+    headFed f.1.chain = (members.map (fun m => m.flatten.length)).sum ∧
+    f.1.packsize = f.1.out.length ∧ f.1.digest = crc32 f.1.out ∧ f.1.chain.length = chain.length :=
+  SevenZ.compressor_accounting chain hne hfed members
+
+/-- the `unpacksizes` property lists one size per coder and ends with the first stage's counter,
+    whatever the methods map is (native filters sharing a stage or not) -/
+theorem unpacksizes_last (m : Bool) (ms : List Bool) (fed R : List Nat) (h : unpacksizesOf (m :: ms) fed = some R) :
+    R.getLast? = fed[0]? ∧ R.length = ms.length + 1 :=
+  unpacksizesOf_spec m ms fed R h
+
+/-- **A whole create session conforms** (signature header + packed area + raw header).  For
+    EVERY list of write calls — any names over all Unicode scalar values, directories and data
+    members in any order, every member's bytes delivered in any blocks —, EVERY chain of codec
+    stages and any well-formed coder records: the archive file the session leaves is accepted by
+    the strict archive reader (magic, start-header CRC, header found by offset and size ending
+    exactly at the end of the file, header CRC, every count / size / END check of the header
+    database); the packed sizes tile the data area exactly; and the format's assignment returns
+    exactly the members written, in order, each data member with the length and CRC-32 of its
+    bytes at the offset where its predecessors end.  The three size hypotheses are the 64-bit
+    limits of the format (packed area, per-coder sizes, header length). -/
+theorem session_archive_conforms {σ} (cfg : WConfig σ) (ms : List WMember) (img : Bytes)
+    (wfc : WFConfig cfg) (wfm : WFMembers ms)
+    (hout : (sessionCompress cfg ms).1.out.length < 2 ^ 64)
+    (hus : ∀ us, unpacksizesOf cfg.methodsMap ((sessionCompress cfg ms).1.chain.map (·.fed)) = some us → ∀ v ∈ us, v < 2 ^ 64)
+    (hhl : ∀ H hdr, sessionHeader cfg ms = some H →
+      writeHeaderRaw true H (32 + (sessionCompress cfg ms).1.out.length) = some hdr → hdr.length < 2 ^ 64)
+    (h : sessionArchive cfg ms = some img) :
+    ∃ H st, Spec.readArchive img = .ok { top := .raw H, dataArea := (sessionCompress cfg ms).1.out } ∧
+      H.streams = some st ∧ Spec.tilesExactly st (sessionCompress cfg ms).1.out = true ∧
+      Spec.members H = .ok (expectedMembers ms) :=
+  SevenZ.session_archive_conforms cfg ms img wfc wfm hout hus hhl h
+
+/-- a concrete session (a directory, a 3-byte member in two blocks, an empty member; a chain
+    of two stages, one buffering everything until flush) produces an archive: the conclusion
+    of `session_archive_conforms` is not vacuous -/
+def exampleConfig : WConfig Bytes :=
+  { coders := [{ method := [0x21], props := some [0x18] }, { method := [3], props := some [1] }],
+    methodsMap := [true, true],
+    chain := [{ stage := { compress := fun s d => (s ++ d, []), flush := fun s => ([], s) }, st := [] }],
+    enableDigests := true }
+
+def exampleMembers : List WMember :=
+  [{ name := [100], emptystream := true, mtime := .val 5, attr := .val 16 },
+   { name := [0x1F600, 47, 97], emptystream := false, blocks := [[1, 2], [3]], mtime := .val 7, attr := .val 32 },
+   { name := [98], emptystream := false, blocks := [], mtime := .undef, attr := .val 32 }]
+
+example : ((sessionArchive exampleConfig exampleMembers).map List.length) = some 156 := by decide +kernel
+
+/-- names and sub-stream assignment an independent reader recovers from an archive image -/
+def recovered (img : Bytes) : Option (List (Option (List Nat) × Option (Nat × Nat × Nat × Option Nat))) :=
+  match Spec.readArchive img with
+  | .ok a =>
+    match a.top with
+    | .raw H =>
+      match Spec.members H with
+      | .ok l => some (l.map (fun m => (m.file.name, m.stream)))
+      | .error _ => none
+    | _ => none
+  | .error _ => none
+
+example : ((sessionArchive exampleConfig exampleMembers).bind recovered ==
+    some [(some [100], none), (some [0x1F600, 47, 97], some (0, 0, 3, some 1438416925)), (some [98], some (0, 3, 0, some 0))]) = true := by
+  decide +kernel
 
 /-- boolean vectors as written are read back by the strict reader (all-defined shortcut and
     bit field with zero padding), for every vector -/
